@@ -63,3 +63,76 @@ int wb_thread_is_in_pool(ABT_thread th)
 {
     return __atomic_load_n(&ABTI_thread_get_ptr(th)->is_in_pool.val, __ATOMIC_RELAXED);
 }
+
+/* ------------------------------------------------------------------ memory-pool driver */
+#define WB_MP_LOCALS 4
+struct wb_mp {
+    ABTI_mem_pool_global_pool g;
+    ABTI_mem_pool_local_pool l[WB_MP_LOCALS];
+    int l_init[WB_MP_LOCALS];
+    size_t elem_size, hdr_off;
+};
+
+wb_mp *wb_mp_create(size_t nhdr_per_bucket, size_t elem_size, size_t hdr_off, size_t page_size, int lp_kind, int use_mprotect)
+{
+    wb_mp *m = (wb_mp *)calloc(1, sizeof *m);
+    ABTU_MEM_LARGEPAGE_TYPE req[4];
+    int nreq = 0;
+    /* request lists with fall-back, as ABTI_mem_init builds them */
+    if (lp_kind == 3)
+        req[nreq++] = ABTU_MEM_LARGEPAGE_MMAP_HUGEPAGE;
+    if (lp_kind >= 2)
+        req[nreq++] = ABTU_MEM_LARGEPAGE_MMAP;
+    if (lp_kind >= 1)
+        req[nreq++] = ABTU_MEM_LARGEPAGE_MEMALIGN;
+    req[nreq++] = ABTU_MEM_LARGEPAGE_MALLOC;
+    ABTI_mem_pool_global_pool_mprotect_config mp;
+    memset(&mp, 0, sizeof mp);
+    if (use_mprotect) {
+        mp.enabled = ABT_TRUE;
+        mp.check_error = ABT_FALSE;
+        mp.offset = 0;
+        mp.page_size = 4096;
+        mp.alignment = 4096;
+    }
+    m->elem_size = elem_size;
+    m->hdr_off = hdr_off;
+    ABTI_mem_pool_init_global_pool(&m->g, nhdr_per_bucket, elem_size, hdr_off, page_size, req, (uint32_t)nreq, page_size < 4096 ? 4096 : page_size,
+                                   use_mprotect ? &mp : NULL);
+    return m;
+}
+int wb_mp_local_init(wb_mp *m, int idx)
+{
+    int r = ABTI_mem_pool_init_local_pool(&m->l[idx], &m->g);
+    if (r == ABT_SUCCESS)
+        m->l_init[idx] = 1;
+    return r;
+}
+void *wb_mp_alloc(wb_mp *m, int idx)
+{
+    void *p = NULL;
+    int r = ABTI_mem_pool_alloc(&m->l[idx], &p);
+    if (r != ABT_SUCCESS)
+        return NULL;
+    return (char *)p - m->hdr_off;
+}
+void wb_mp_free(wb_mp *m, int idx, void *elem)
+{
+    ABTI_mem_pool_free(&m->l[idx], (char *)elem + m->hdr_off);
+}
+void wb_mp_local_destroy(wb_mp *m, int idx)
+{
+    if (m->l_init[idx]) {
+        ABTI_mem_pool_destroy_local_pool(&m->l[idx]);
+        m->l_init[idx] = 0;
+    }
+}
+void wb_mp_destroy(wb_mp *m)
+{
+    ABTI_mem_pool_destroy_global_pool(&m->g);
+    free(m);
+}
+size_t wb_mp_header_bytes(void)
+{
+    return sizeof(ABTI_mem_pool_header);
+}
